@@ -46,9 +46,21 @@ def make_election(seed):
                           n_states=3)
 
 
+def make_big_election(seed):
+    """a district election with two states, districts of more than ten units and states with dozens of reporting units: district
+    effects in the bootstrap model and per-group gaussian calibration (>= 10 calibration units per state) both take place"""
+    rng = random.Random(seed + 17)
+    return E.gen_election(rng, size="medium", district=True, roles=["reporting"] * 8 + ["partial"] * 2, min_reporting=90, n_states=2,
+                          unexpected=False, n_districts=2, per_state_min=56)
+
+
 def argsets(seed):
     rng = random.Random(seed + 1)
     return {
+        "boD": dict(_election="big", pi_method="bootstrap", estimands=["margin"], alphas=[0.9], features=["baseline_normalized_margin"],
+                    aggregates=["postal_code", "district", "unit"], params={"B": 6, "lambda_": 1.0}),
+        "gaB": dict(_election="big", pi_method="gaussian", estimands=["turnout"], alphas=[0.7], features=[],
+                    aggregates=["postal_code", "district"]),
         "np": dict(pi_method="nonparametric", estimands=["turnout", "dem"], alphas=[0.5, 0.7], features=["x1"],
                    aggregates=["postal_code", "county_fips", "unit"]),
         "ga": dict(pi_method="gaussian", estimands=["turnout"], alphas=[0.7, 0.9], features=[],
@@ -63,14 +75,24 @@ def argsets(seed):
 def run_history(history, seed):
     """history: list of ["est", key] | ["nat", "none"|"dict", times]; returns list of digests (str)"""
     e = make_election(seed)
+    big = []
     sets = argsets(seed)
     cl = E.client_mod().ModelClient()
     out = []
     last = None
+
+    def el_args(key):
+        a = sets[key]
+        if a.get("_election") == "big":
+            if not big:
+                big.append(make_big_election(seed))
+            return big[0], {k: v for k, v in a.items() if not k.startswith("_")}
+        return e, a
+
     for h in history:
         if h[0] == "est":
-            a = sets[h[1]]
-            r = E.run_client(e, client=cl, **a)
+            el, a = el_args(h[1])
+            r = E.run_client(el, client=cl, **a)
             out.append(P.digest(r["tables"]) if "tables" in r else "raises:" + r["raises"])
             last = h[1]
         elif h[0] == "other":
@@ -85,8 +107,8 @@ def run_history(history, seed):
             dg = lambda x: P.digest(x["tables"]) if "tables" in x else "raises:" + x["raises"]  # noqa: E731
             out.append("other:" + dg(r) + "|fresh:" + dg(r2))
         elif h[0] == "fresh":
-            a = sets[h[1]]
-            r = E.run_client(e, **a)
+            el, a = el_args(h[1])
+            r = E.run_client(el, **a)
             out.append(P.digest(r["tables"]) if "tables" in r else "raises:" + r["raises"])
         else:
             d = None if h[1] == "none" else {s: 3 + i for i, s in enumerate(sorted(set(e.states) | set(e.cur["postal_code"])))}
@@ -102,20 +124,22 @@ def run_history(history, seed):
     return out
 
 
-def gen_history(rng, other=None):
+def gen_history(rng, other=None, big=False):
     keys = rng.sample(["np", "ga", "bo", "bo2"], rng.choice([2, 3]))
+    if big:
+        keys = ["boD", "gaB"]
     h = []
     for _ in range(rng.randint(3, 6)):
         k = rng.choice(keys)
         h.append(["est", k])
-        if k in ("bo", "bo2") and rng.random() < 0.7:
+        if k in ("bo", "bo2", "boD") and rng.random() < 0.7:
             h.append(["nat", rng.choice(["none", "dict"]), rng.choice([1, 2, 3])])
     # another election on the same client in between (half of the histories)
     if (rng.random() < 0.5) if other is None else other:
         h.insert(rng.randint(0, max(0, len(h) - 1)), ["other"])
     # make sure something repeats, and add fresh-client references
     h.append(["est", keys[0]])
-    if keys[0] in ("bo", "bo2"):
+    if keys[0] in ("bo", "bo2", "boD"):
         h.append(["nat", "none", 2])
     for k in keys:
         h.append(["fresh", k])
@@ -246,7 +270,7 @@ def explore(run, driver, budget):
         run.info["randomness_sources"] = driver.run([{"op": "det.sites"}])[0]
     for k in range(n):
         seed = rng.randint(0, 10**6)
-        history = gen_history(rng, other=(k % 2 == 0))
+        history = gen_history(rng, other=(k % 2 == 0), big=(k % 2 == 1))
         case = {"election_seed": seed, "history": history}
         run.case(case, True)
         run.count("histories")
